@@ -197,7 +197,7 @@ def main(argv=None):
         if a.only and h.name != a.only:
             continue
         for cfg in h.configs(tier, seed):
-            opts = dict(seed=seed, budget_s=h.opts.get("budget_s", 240))
+            opts = dict(seed=seed, budget_s=h.opts.get("budget_s", 240), second_solver=(2 if tier == "quick" else 6))
             if tier == "thorough":
                 opts["budget_s"] = h.opts.get("budget_s_thorough", 1800)
                 opts.update(timeout_ms=h.opts.get("timeout_ms_thorough", 60000), max_paths=h.opts.get("max_paths_thorough", 50000))
@@ -216,7 +216,8 @@ def finish(prop, tier, seed, mod, results, pre, wall):
     findings = known_findings()
     agg = dict(paths=0, decisions=0, forks=0, solver_calls=0, solver_s=0.0, obligations=0, discharged=0,
                structural=0, structural_confirmed=0, undecided=0, violated=0, unconfirmed=0, validated=0, validation_skipped=0,
-               maybe_infeasible=0, aborted_paths=0)
+               maybe_infeasible=0, aborted_paths=0, second_solver_asked=0, second_solver_agree=0, second_solver_inconclusive=0,
+               float_frame_replays=0, by_linear_abstraction=0, from_premises=0)
     incomplete = False
     samples, errors, violations, undec = [], [], [], []
     functions, assumptions, lemmas = set(), set(), set()
@@ -303,6 +304,10 @@ def finish(prop, tier, seed, mod, results, pre, wall):
             unconfirmed_sat=agg["unconfirmed"], forks=agg["forks"], solver_queries=agg["solver_calls"],
             solver_s=round(agg["solver_s"], 3), validation_skipped=agg["validation_skipped"],
             paths_with_unknown_feasibility=agg["maybe_infeasible"], aborted_paths=agg["aborted_paths"],
+            decided_in_linear_abstraction=agg["by_linear_abstraction"], decided_from_stated_premises=agg["from_premises"],
+            second_solver=dict(binary="/usr/bin/z3 (4.8.12)", queries=agg["second_solver_asked"], agree=agg["second_solver_agree"],
+                               inconclusive=agg["second_solver_inconclusive"]),
+            float64_replays_of_monitored_writes=agg["float_frame_replays"],
             incomplete=incomplete, exhaustive=not incomplete,
             functions_encoded=sorted(functions), per_harness=per_harness,
             bounds=getattr(mod, "BOUNDS", {}).get(tier, ""), lemmas=sorted(lemmas),
